@@ -69,6 +69,8 @@ PhaseC(p) ==
          [] p.probe = "alias_over" -> StopProto(p, 130)
          [] p.probe = "alias_at" -> << E("h_start", "pub", 3, 77, 1, 0, 1, "t"), E("h_end", "ok", 3, 0, 0, 0, 0, ""),
                                       E("out", "PUBACK", 0, 77, 0, 0, 0, "") >>
+         [] p.probe = "oversize_ok" -> << E("h_start", "pub", 3, 77, 1, 0, 100, "t"), E("h_end", "ok", 3, 0, 0, 0, 0, ""),
+                                         E("out", "PUBACK", 0, 77, 0, 0, 0, "") >>
          [] OTHER -> << >>
 
 \* a handshake service that answers only now: the answer, then the PUBLISH that waited behind the CONNECT
